@@ -130,7 +130,7 @@ P = {
   "Lean 4 proofs on the log routing model + Spec judge + correspondence on written files"),
  "C19": ("set", True,
   "Lean 4 theorems (kernel-checked, unbounded): the splay-tree + thread model of src/set.c refines a sorted map for every operation sequence and every "
-  "comparator satisfying the order laws, with exactly-once disposal; the stock comparators are proved lawful. Differential correspondence (random "
+  "comparator satisfying the order laws, with exactly-once disposal; in every reachable state a lookup returns exactly the one member equal to the key, an inserted element is what the next lookup finds and a removed key is gone (C19_map_laws); the stock comparators are proved lawful. Differential correspondence (random "
   "sequences with all four comparators, extreme ints, every reachable tree shape over a small key universe x next op) under ASan/UBSan; the sorted-map "
   "spec is also evaluated directly on the C code's outputs.", "Lean 4 refinement proof + model/implementation correspondence check"),
  "C20": ("module", True,
